@@ -34,6 +34,7 @@
 //! (the `Hash`/`Eq` contract). The output format of `{:?}` and the hash value are not constrained.
 
 pub mod adapters;
+pub mod droppanic;
 pub mod ledger;
 pub mod observers;
 pub mod shapes;
@@ -1215,6 +1216,63 @@ pub fn property() -> Property {
     per_vec_unwind!(Rgba, 4, "rgba", ALL);
     per_vec_unwind!(Uv, 2, "uv", ALL);
     per_vec_unwind!(Uvw, 3, "uvw", ALL);
+    // element destructors that panic (droppanic.rs)
+    macro_rules! per_vec_droppanic {
+        ($V:ident, $n:expr, $sfx:literal, $q:expr) => {{
+            let total = droppanic::iter_total($n);
+            let q: u64 = $q;
+            checks.push(Check {
+                name: concat!("droppanic-iter-", $sfx),
+                about: "drop of the consuming iterator with an element whose DESTRUCTOR PANICS (once, only when dropped by the container): every cursor state (start,end) x {front pulls first, back pulls first, alternating} x position of the panicking element (every live position, every yielded position, none) x consumer keeps / drops what it pulled: the destructor runs iff the element is live, only its panic comes out, no element is dropped twice (the panicking one included), no yielded element is touched; without a panic every element is dropped exactly once; whether the not yet dropped live elements are dropped or leaked after the panic is labelled, not judged",
+                kind: Kind::Index { total, quick: q.min(total), thorough: total, f: droppanic::iter_case::<$V<Tracked>, $n> },
+            });
+            checks.push(Check {
+                name: concat!("droppanic-history-", $sfx),
+                about: "random histories (<= 8 steps of next / next_back / nth / nth_back / len with arguments 0, rem/2, rem-1, rem+1, then drop / count() / last() / by-value nth / rev().count()) with the destructor of a tape-chosen element armed all along: it panics inside nth / nth_back (the iterator survives and goes on), inside the by-value consumers (the iterator is dropped while unwinding) or inside the iterator's drop; same at-most-once oracle",
+                kind: Kind::Tape { len: droppanic::HISTORY_TAPE_LEN, quick: 1_200, thorough: 48_000, f: droppanic::history_case::<$V<Tracked>, $n> },
+            });
+            let total = droppanic::vec_total($n);
+            checks.push(Check {
+                name: concat!("droppanic-conv-", $sfx),
+                about: "drop of the vector, of From<[T;N]> / into_array / into_tuple / From<tuple> / map / zip / map2 / map3 results, FromIterator (overwriting its Defaults) from vek's own IntoIter (also reversed, also advanced and borrowed), from owned and borrowed std sources with n+2 and n-1 elements, a chain of conversions, two iterators dropped together, x every element of the case (the caller's and the Defaults vek makes) having the panicking destructor: same at-most-once oracle, exactly once when nothing panics",
+                kind: Kind::Index { total, quick: total, thorough: total, f: droppanic::vec_case::<$V<Tracked>, $n> },
+            });
+        }};
+    }
+    per_vec_droppanic!(Vec2, 2, "vec2", ALL);
+    per_vec_droppanic!(Vec3, 3, "vec3", ALL);
+    per_vec_droppanic!(Vec4, 4, "vec4", ALL);
+    per_vec_droppanic!(Vec8, 8, "vec8", ALL);
+    per_vec_droppanic!(Vec16, 16, "vec16", ALL);
+    per_vec_droppanic!(Vec32, 32, "vec32", ALL);
+    per_vec_droppanic!(Vec64, 64, "vec64", 120_000);
+    per_vec_droppanic!(Extent2, 2, "extent2", ALL);
+    per_vec_droppanic!(Extent3, 3, "extent3", ALL);
+    per_vec_droppanic!(Rgb, 3, "rgb", ALL);
+    per_vec_droppanic!(Rgba, 4, "rgba", ALL);
+    per_vec_droppanic!(Uv, 2, "uv", ALL);
+    per_vec_droppanic!(Uvw, 3, "uvw", ALL);
+    checks.push(Check {
+        name: "droppanic-conv-across",
+        about: "the 22 conversions between vector types (From<(smaller, scalar)>, shrinking From / xyz() / xy() / rgb(), kind changes) then drop of the result, x every source element having the panicking destructor (the shrinking conversions run it themselves on the discarded elements): same at-most-once oracle",
+        kind: Kind::Index { total: droppanic::ACROSS_TOTAL, quick: droppanic::ACROSS_TOTAL, thorough: droppanic::ACROSS_TOTAL, f: droppanic::across_case },
+    });
+    macro_rules! per_mat_droppanic {
+        ($M:ty, $n:expr, $nn:expr, $name:expr) => {{
+            let total = droppanic::mat_total($nn);
+            checks.push(Check {
+                name: $name,
+                about: "drop of the matrix and of the results of {from,into}_{row,col}_array(s), transposed, transpose, layout change, map, new, diagonal (discards the off-diagonal elements), map_rows|map_cols, x every element having the panicking destructor: same at-most-once oracle, exactly once when nothing panics",
+                kind: Kind::Index { total, quick: total, thorough: total, f: droppanic::mat_case::<$M, $n, $nn> },
+            });
+        }};
+    }
+    per_mat_droppanic!(rm::Mat2<Tracked>, 2, 4, "droppanic-row-mat2");
+    per_mat_droppanic!(cm::Mat2<Tracked>, 2, 4, "droppanic-col-mat2");
+    per_mat_droppanic!(rm::Mat3<Tracked>, 3, 9, "droppanic-row-mat3");
+    per_mat_droppanic!(cm::Mat3<Tracked>, 3, 9, "droppanic-col-mat3");
+    per_mat_droppanic!(rm::Mat4<Tracked>, 4, 16, "droppanic-row-mat4");
+    per_mat_droppanic!(cm::Mat4<Tracked>, 4, 16, "droppanic-col-mat4");
     per_vec_ext!(Vec2, 2, "vec2", ALL, ALL, ALL);
     per_vec_ext!(Vec3, 3, "vec3", ALL, ALL, ALL);
     per_vec_ext!(Vec4, 4, "vec4", ALL, ALL, ALL);
@@ -1292,7 +1350,7 @@ pub fn property() -> Property {
     per_mat!(cm::Mat4<Tracked>, 4, 16, "conv-col-mat4", "views-col-mat4");
     Property {
         id: "C18",
-        rule: "iterator cases are histories over {next, next_back, len, size_hint, {:?}, ==twin, hash, drop-now} with a keep/drop decision of the consumer for every yielded element: the table enumerates every (start,end) x {front-first, back-first, alternating} x 3 consumer policies x 8 operations for each of the 13 vector types, random histories come from proptest byte tapes; a history is non-trivial when it pulls from both ends and the iterator is dropped with >= 1 element still inside, or when it formats/compares/hashes after >= 1 pull; conversion and view cases (finite, fully enumerated) are all non-trivial: every element is a distinct Tracked id; distinct = distinct index / consumed tape prefix per check; adapters-table / pairs-adapters / adapters-random cases are histories over the extended alphabet (every Iterator / DoubleEndedIterator / ExactSizeIterator method and std adapter, by_ref and by value, argument classes 0, 1, rem/2, rem-1, rem, rem+1, rem+7, usize::MAX relative to the remaining length at that moment; for chain/flatten also relative to both lengths): adapters-table enumerates cursor state x (operation, argument class) (all states for n <= 16, a seeded sample for n = 32, 64), pairs-observers enumerates state pair x 4 content modes x {==/!=, hash} (all pairs for n <= 8), pairs-adapters state pair x two-operand (operation, argument class) (all pairs for n <= 4); such a case is non-trivial when it executes at least one operation other than next / next_back / len / size_hint, or a pair observer after at least one pull; the Debug observer of these histories is parametrised by (format specification, sink): adapters-table enumerates cursor state x 24 specifications x 5 sinks; observers-vec / observers-mat (kind of value x specification x sink, fully enumerated) and sources-split (12 kinds of borrowed source x source length 0..=2n+2 x 1..3 rounds, fully enumerated) cases are all non-trivial; unwind-iter enumerates cursor state x (operation, reduced argument classes 0, rem/2, rem, rem+1, both, usize::MAX) x panic position k (all states and all k for n <= 4, a seeded sample above; for more than 12 calls the positions are spread from the first to the last), unwind-vec / unwind-mat enumerate kind x k; such a case is non-trivial when the injected panic was raised inside the operation (cases whose operation calls no closure at that state, or whose k lies beyond the last call, are counted as trivial)",
+        rule: "iterator cases are histories over {next, next_back, len, size_hint, {:?}, ==twin, hash, drop-now} with a keep/drop decision of the consumer for every yielded element: the table enumerates every (start,end) x {front-first, back-first, alternating} x 3 consumer policies x 8 operations for each of the 13 vector types, random histories come from proptest byte tapes; a history is non-trivial when it pulls from both ends and the iterator is dropped with >= 1 element still inside, or when it formats/compares/hashes after >= 1 pull; conversion and view cases (finite, fully enumerated) are all non-trivial: every element is a distinct Tracked id; distinct = distinct index / consumed tape prefix per check; adapters-table / pairs-adapters / adapters-random cases are histories over the extended alphabet (every Iterator / DoubleEndedIterator / ExactSizeIterator method and std adapter, by_ref and by value, argument classes 0, 1, rem/2, rem-1, rem, rem+1, rem+7, usize::MAX relative to the remaining length at that moment; for chain/flatten also relative to both lengths): adapters-table enumerates cursor state x (operation, argument class) (all states for n <= 16, a seeded sample for n = 32, 64), pairs-observers enumerates state pair x 4 content modes x {==/!=, hash} (all pairs for n <= 8), pairs-adapters state pair x two-operand (operation, argument class) (all pairs for n <= 4); such a case is non-trivial when it executes at least one operation other than next / next_back / len / size_hint, or a pair observer after at least one pull; the Debug observer of these histories is parametrised by (format specification, sink): adapters-table enumerates cursor state x 24 specifications x 5 sinks; observers-vec / observers-mat (kind of value x specification x sink, fully enumerated) and sources-split (12 kinds of borrowed source x source length 0..=2n+2 x 1..3 rounds, fully enumerated) cases are all non-trivial; unwind-iter enumerates cursor state x (operation, reduced argument classes 0, rem/2, rem, rem+1, both, usize::MAX) x panic position k (all states and all k for n <= 4, a seeded sample above; for more than 12 calls the positions are spread from the first to the last), unwind-vec / unwind-mat enumerate kind x k; such a case is non-trivial when the injected panic was raised inside the operation (cases whose operation calls no closure at that state, or whose k lies beyond the last call, are counted as trivial); droppanic-iter enumerates cursor state x 3 ways of reaching it x position of the element whose destructor panics (all of them up to n = 32, a seeded sample of 120 000 of the 418 275 indices for n = 64 in the quick tier; of the yielded positions only the outermost ones and the ones next to the live range are run), droppanic-conv / droppanic-mat / droppanic-conv-across enumerate kind x panicking element, droppanic-history draws histories from the tape; such a case is non-trivial when the armed destructor actually panicked inside code run by vek or by the drop glue of a vek value",
         assumptions: &[
             "rustc, std (arrays, Vec, slices, DefaultHasher) and the proptest runner/shrinker are trusted",
             "the oracle is the thread-local ownership ledger of c18::ledger::Tracked (a plain {id,val} struct, so that reading a stale slot is harmless for the harness) plus a deque model of the iterator; neither calls vek",
@@ -1305,7 +1363,8 @@ pub fn property() -> Property {
             "the vector's own Debug is judged as a multiset of elements (field order of {:?} is not documented); Display of vectors in declaration order (documented format), Display of matrices row by row whatever the layout (documented: 'This format doesn't depend on the matrix's storage layout'), the std formatters of slice views / iter() / iter_mut() / arrays in slice order",
             "hashing: only live elements may be looked at; iterators with equal remaining value sequences (and equal vectors) agree on every route (SipHash, a recording hasher's complete call stream, FNV, hash_one, hash_slice of a one-element slice, hash of a tuple) and are one member of a HashSet; nothing is asserted about which or how many live elements a hash looks at, nor about unequal values",
             "FromIterator from a BORROWED source takes exactly min(n, available) elements and leaves all others in the source (reading of 'transfers each element exactly once': an element pulled and then dropped is in neither the vector nor the source, i.e. lost); whether next() is called again after the source returned None is recorded as a label, not judged; sources only report legal size hints (exact, (0,None), (n,None), (0,Some(n+5)))",
-            "unwinding: a panic of a user closure or of an element's Default / Debug / Display / PartialEq / Ord / Hash impl is injected by c18::ledger::tick (message c18-injected-panic) and caught with vkit::catch under the driver's panic hook; it must come out of the operation unchanged. Afterwards everything that survived is used up and dropped and the ledger must show no double drop, no second hand-out, no container drop of a handed-out element and no read of a yielded / dropped element (Rust's safety contract holds during unwinding); elements that end up neither yielded nor dropped (leaked) are allowed and labelled. A surviving by-ref iterator must stay memory-safe, but a panic of its own when it is used or dropped after the injected panic is tolerated (labelled, not judged). The number of closure calls T of an iterator operation is measured by running the same generic code on the deque model; for the Hash / == observers, where nothing is promised about which elements are looked at, a fuse that is not reached is not judged. Element Drop impls never panic (a second panic during unwinding aborts the process, which no implementation can avoid)",
+            "unwinding: a panic of a user closure or of an element's Default / Debug / Display / PartialEq / Ord / Hash impl is injected by c18::ledger::tick (message c18-injected-panic) and caught with vkit::catch under the driver's panic hook; it must come out of the operation unchanged. Afterwards everything that survived is used up and dropped and the ledger must show no double drop, no second hand-out, no container drop of a handed-out element and no read of a yielded / dropped element (Rust's safety contract holds during unwinding); elements that end up neither yielded nor dropped (leaked) are allowed and labelled. A surviving by-ref iterator must stay memory-safe, but a panic of its own when it is used or dropped after the injected panic is tolerated (labelled, not judged). The number of closure calls T of an iterator operation is measured by running the same generic code on the deque model; for the Hash / == observers, where nothing is promised about which elements are looked at, a fuse that is not reached is not judged. In the unwind-* checks element Drop impls never panic (a second panic during unwinding aborts the process, which no implementation can avoid)",
+            "droppanic-*: the element registered under a chosen id panics in its own Drop (message c18-element-destructor-panic) exactly once, only when it is dropped by the container side (vek code, std code running inside a vek / iterator call, drop glue of vek values) and only when the thread is not already panicking; the ledger records the drop BEFORE the panic is raised, so the panicking element counts as dropped once its destructor was entered. Asserted: only that panic comes out, the destructor of an element in the iterator's live range runs when the iterator is dropped and that of a yielded element does not, no element is dropped / handed out twice, no handed-out element is dropped by the container, nothing is read after its drop; when nothing panicked every element is dropped exactly once. NOT asserted: what happens to the elements the container had not yet dropped when the destructor panicked (unchanged vek's IntoIter leaks them, std's iterators and drop glue drop them; the property does not decide for a panicking destructor) - labelled only; whether a panic could be swallowed (not possible without catch_unwind; a swallowed one is treated like a raised one); the state of an iterator after a panic inside nth / nth_back beyond memory safety and the ledger",
             "not exercised: Sum / Product over iterators of vectors (arithmetic on Copy scalars, no ownership to track); from_slice needs T: Copy, so it cannot clone a tracked element (covered with u32 elements in conv-*); dbg! itself (it is {:#?} into stderr, which is exercised as a format specification)",
             "std's StepBy::nth needs ~2^64 loop rounds when both the step and n are usize::MAX (overflow resolution loop in std, independent of vek): for that one adapter both factors are capped at 2^20; nth / nth_back / skip / take / step_by themselves are exercised with usize::MAX",
             "advance_by, next_chunk, array_chunks, is_empty and the other unstable iterator methods are not callable on the pinned stable toolchain and are reached only through the stable methods built on them",
